@@ -58,7 +58,7 @@ func c04Check(c *Ctx, spec *gen.TableSpec, aligns []int, decos []namedDeco, st *
 	reused := texttable.Wrap(t0)
 	var b *gen.Built
 	if st != nil {
-		b = spec.BuildStaged(t0, st.At, func() {
+		b = spec.BuildStagedN(t0, st.points(), func() {
 			applyAligns(t0, st.PreAligns)
 			reused.Render()
 		})
